@@ -57,6 +57,9 @@ func TestVerifC14(t *testing.T) {
 			w.Header().Set("Content-Length", fmt.Sprint(len(a.body)))
 			w.WriteHeader(200)
 			w.Write([]byte(a.body[:a.cutAt]))
+			if fl, ok := w.(http.Flusher); ok {
+				fl.Flush()
+			}
 			if hj, ok := w.(http.Hijacker); ok {
 				if c, _, err := hj.Hijack(); err == nil {
 					c.Close()
@@ -169,8 +172,8 @@ func TestVerifC14(t *testing.T) {
 		d, f := newFilter()
 		dst := f.Path(d.conf.DataDir)
 		rl := 120
-		if sz > 1<<20 {
-			rl = 400
+		if sz >= 1<<20 {
+			rl = 900
 		}
 		a, b := c14List(r.Fork(2), sz, rl, "A"), c14List(r.Fork(3), sz/2, rl, "B")
 		s.Case(fmt.Sprintf("size-%d", sz), dst, nil, []string{"filtering", "multi-save", "updated", "failed-download", fmt.Sprintf("size>=%dKiB", sz>>10)}, func(c *verifc14.Case) {
@@ -209,7 +212,7 @@ func TestVerifC14(t *testing.T) {
 			for j := 0; j < steps; j++ {
 				sz, rl := r.Intn(120), 12+r.Intn(20)
 				if !small {
-					sz, rl = r.Intn(s.Scale(300000, 3000000)), 20+r.Intn(200)
+					sz, rl = r.Intn(s.Scale(300000, 3000000)), 60+r.Intn(800)
 				}
 				body := c14List(r.Fork(uint64(j)), sz, rl, fmt.Sprint(j))
 				switch r.Intn(6) {
